@@ -442,6 +442,26 @@ def deep_pipeline_scenario(sid, n=1500, local=True, forwarded=True):
     return {"id": sid, "role": "", "steps": steps}
 
 
+def split_burst_scenario(sid, prefill_kb, n=1500, every=12):
+    """A node that does not read, its kernel buffers filled to a chosen level by a few large requests (the proxy's own
+    outbound buffer for it stays empty); then, in one write, a burst of small requests for it - single-key ones and, every
+    so often, a two-slot DEL / MGET / MSET - so that far more than a thousand fragments are flushed by one write signal and
+    the kernel takes only part of them.  Every fragment must arrive, once and in order."""
+    step = lambda stim, settle=True: {"stim": stim, "settle": settle, "noIter": False}
+    fill = [{"k": "cmd", "slots": ["A"], "args": ["SET", "@0", "rnd:10000:%d" % (500 + k)], "dups": [-1]} for k in range(prefill_kb // 10)]
+    burst = []
+    for x in range(n):
+        if x % every == every - 1:
+            burst.append({"k": ["del", "mget", "mset"][(x // every) % 3], "slots": ["A", "B"], "args": [], "dups": [-1, -1]})
+        else:
+            burst.append({"k": "get", "slots": ["A"], "args": [], "dups": [-1]})
+    steps = [step([_st(op="npause", n="n1")]), step([_st(op="send", c="c1", reqs=fill)]), step([]),
+             step([_st(op="send", c="c1", reqs=burst)]), step([]), step([_st(op="nresume", n="n1")])]
+    for _ in range(3):
+        steps.append(step([_st(op="answer", n="n1", kind="ok", count=n + len(fill) + 5), _st(op="answer", n="n2", kind="ok", count=n // every + 5)]))
+    return {"id": sid, "role": "", "steps": steps}
+
+
 def many_replies_scenario(sid, n=3000, spread=False):
     """Thousands of requests of one client in flight on one node, which then answers all of them at once: the proxy gets
     far more than a thousand complete replies in a single read, and the node is quiet afterwards."""
